@@ -358,7 +358,7 @@ def cbmc_job(u, sp, job, workdir, tier):
         return res
     timeout = job.get("timeout", DEFAULT_TIMEOUT[tier])
     base = os.path.join(workdir, job["name"])
-    inc = ["-I", os.path.join(VERIF, "spec")]
+    inc = ["-I", os.path.join(VERIF, "spec"), "-I", workdir]
     use_dfcc = enforced is not None or replaced or job.get("loops")
     cmdlog = []
     use_gb = use_dfcc or job.get("goto_cc")
